@@ -8,10 +8,10 @@ import "sync"
 // which the concurrently running per-function analyses send their results to the collector in `run`.
 
 var (
-	verifMu    sync.Mutex
-	verifCond  = sync.NewCond(&verifMu)
-	verifRank  map[int]int       // index -> position in the forced order (nil: no forcing)
-	verifNext  int
+	verifMu   sync.Mutex
+	verifCond = sync.NewCond(&verifMu)
+	verifRank map[int]int // index -> position in the forced order (nil: no forcing)
+	verifNext int
 )
 
 // VerifSetSendOrder forces the results with the given function indices to be sent in exactly this order
